@@ -5,7 +5,9 @@ rows = []
 for d in sorted(glob.glob("/verif/seeded/C*")):
     m = json.load(open(os.path.join(d, "meta.json")))
     v = json.load(open(os.path.join(d, "verdicts.json"))) if os.path.exists(os.path.join(d, "verdicts.json")) else {}
-    fired = [c for c, x in v.items() if x["exit"] != 0]
+    if "fired" in v:  # tools/corpus.py format
+        v = {c: {"exit": 1, "fails": f} for c, f in v["fired"].items()}
+    fired = sorted([c for c, x in v.items() if x["exit"] != 0], key=lambda c: (c != os.path.basename(d)[:3], c))
     first = m.get("caught_initially")
     rules = []
     for c in fired:
@@ -14,6 +16,6 @@ for d in sorted(glob.glob("/verif/seeded/C*")):
             if len(parts) >= 2:
                 rules.append("%s %s `%s`" % (c, parts[0].replace("FAIL ", ""), parts[1][:60]))
     rows.append("| %s | %s | %s | %s | %s |" % (os.path.basename(d), m.get("summary", "")[:160].replace("|", "/"), m.get("needs", "")[:140].replace("|", "/"),
-                                            "yes" if first else ("no → rule added" if first is False else "?"), "; ".join(rules[:3]) or "—"))
+                                            "yes" if first is True else ("no → rule added" if first is False else (str(first) + " → rule added" if first else "?")), "; ".join(rules[:3]) or "—"))
 print("| seed | change | needs | caught as first written | fires now (rule, site) |\n|---|---|---|---|---|")
 print("\n".join(rows))
